@@ -20,7 +20,7 @@ IDS = frozenset({1})
 # fraction or a small integer, so that every float operation of the implementation stays exact).
 # The model is scale-free: an implementation that rounds to whole watts somewhere is not.
 SCALE = 1.0
-SCALES = [0.5, 0.25, 0.125, 3.0]
+SCALES = [0.5, 0.25, 0.125, 3.0, 2.0 ** -20, 2.0 ** -12, 1024.0]   # incl. sub-milliwatt and kilowatt units
 
 
 def set_scale(case):
